@@ -163,11 +163,13 @@ class C20(core.Check):
                             "quote": r.choice([None, '"', '"', "'"]) if not any("'" in x for x in strings) else r.choice([None, '"']),
                             "newlinechar": r.choice([None, "\\n", "\\r\\n"]), "expand": r.choice([None, True, False]),
                             "comments": r.choice([None, True, False]), "in_place": r.random() < 0.25,
-                            "include": r.random() < 0.3})
+                            "include": r.random() < 0.3,
+                            "existing_out": r.choice([None, None, "other_newlines", "other_newlines", "same", "garbage", "cr_variant"])})
             elif name == "validate":
                 files = []
                 for _ in range(r.choice([1, 1, 2, 3, 5, 8])):
-                    kind = r.choice(["valid", "valid", "invalid", "invalid", "invalid", "versioned", "versioned", "unparseable", "undecodable", "empty", "dir", "missing"])
+                    kind = r.choice(["valid", "valid", "invalid", "invalid", "invalid", "versioned", "versioned", "unparseable", "undecodable", "empty", "dir", "missing",
+                                     "selfinclude", "bareinclude", "missinginclude"])
                     f = {"kind": kind}
                     if kind == "invalid":
                         f["n"] = r.choice(NCOUNTS[2:])
@@ -395,8 +397,18 @@ class C20(core.Check):
         pref = os.path.join(d, "ref.map")
         cwd0 = os.getcwd()
         ref = core.call(lambda: mf.save(mf.open(pin, **okw), pref, **skw))
+        if op.get("existing_out") and not op.get("in_place") and ref[0] == "ok":
+            # OUT already exists (an earlier formatting run): it must be overwritten with exactly the new output
+            with open(pref, "rb") as f:
+                want0 = f.read()
+            nlc = skw.get("newlinechar", "\n").encode()
+            pre = {"same": want0, "garbage": b"OLD CONTENT\n",
+                   "other_newlines": want0.replace(nlc, b"\r\n" if nlc == b"\n" else b"\n"),
+                   "cr_variant": want0.replace(nlc, b"\r")}[op["existing_out"]]
+            with open(pout, "wb") as f:
+                f.write(pre)
         res = self.run_cli(args)
-        sig = {"in_place": "yes" if op.get("in_place") else "no"}
+        sig = {"in_place": "yes" if op.get("in_place") else "no", "existing_out": str(op.get("existing_out"))}
         if ref[0] != "ok":
             if res["status"] == 0:
                 return viol("format_succeeds_where_api_raises", op, {"api": ref[1], "cli": res}, **sig)
@@ -434,6 +446,12 @@ class C20(core.Check):
                         b'      END\n    END\n  END\nEND\n')
             elif kind == "unparseable":
                 data = b'MAP\n  NAME "x"\n  LAYER\n END END END\n'
+            elif kind == "selfinclude":
+                data = f'MAP\n  NAME "x"\n  INCLUDE "f{i}.map"\nEND\n'.encode()  # includes itself: expansion fails
+            elif kind == "bareinclude":
+                data = b'MAP\n  NAME "x"\n  INCLUDE\nEND\n'
+            elif kind == "missinginclude":
+                data = b'MAP\n  NAME "x"\n  INCLUDE "nothere.map"\nEND\n'
             elif kind == "undecodable":
                 data = b'MAP\n  NAME "\xff\xfe\xfa"\nEND\n'
             elif kind == "empty":
